@@ -68,6 +68,26 @@ func decImpl(line string) string {
 		return "bad-op"
 	}
 	switch {
+	case f[1] == "wire" && len(f) == 4:
+		// the decimals the library itself builds from money values on the wire: `dec wire <type> <hex>`
+		t, ok := decInt(f[2])
+		bs := unhx(f[3])
+		if !ok || bs == nil {
+			return "bad-op"
+		}
+		v, err := asetypes.DataType(t).GoValue(binary.LittleEndian, bs)
+		if err != nil {
+			return "err"
+		}
+		d, isDec := v.(*asetypes.Decimal)
+		if !isDec {
+			return "bad-op"
+		}
+		str, panicked := decString(d)
+		if panicked {
+			return "panic"
+		}
+		return fmt.Sprintf("ok %d %d %s %s", d.Precision, d.Scale, d.Int().String(), hx([]byte(str)))
 	case f[1] == "new" && len(f) == 4:
 		p, ok1 := decInt(f[2])
 		s, ok2 := decInt(f[3])
@@ -171,6 +191,26 @@ func decPow10(k int) *big.Int {
 func decOracle(line, out string) string {
 	f := strings.Fields(line)
 	if out == "bad-op" || len(f) < 4 {
+		return ""
+	}
+	if f[1] == "wire" {
+		// a decimal built by the library is one the property speaks about: precision 1..38, scale within it,
+		// no more digits than the precision; its text is the exact expansion
+		g := strings.Fields(out)
+		if len(g) != 5 || g[0] != "ok" {
+			return "a money value on the wire becomes a decimal that can be formatted"
+		}
+		p, _ := decInt(g[1])
+		s, _ := decInt(g[2])
+		i, _ := decBig(g[3])
+		if !(1 <= p && p <= 38 && 0 <= s && s <= p) || new(big.Int).Abs(i).Cmp(decPow10(p)) >= 0 {
+			return "a decimal the library builds holds no more digits than its precision"
+		}
+		text := string(unhx(g[4]))
+		r, ok := new(big.Rat).SetString(text)
+		if !decTextRe.MatchString(text) || !ok || r.Cmp(new(big.Rat).SetFrac(i, decPow10(s))) != 0 {
+			return "the text is the exact decimal expansion of the unscaled integer divided by ten to the scale"
+		}
 		return ""
 	}
 	p, _ := decInt(f[2])
@@ -386,6 +426,34 @@ func decMutate(rng *rand.Rand, t string) string {
 }
 
 func decGen(tier string, rng *rand.Rand, emit func(Case)) {
+	// money values as they come off the wire (SHORTMONEY 4 bytes, MONEY 8 bytes high word first, MONEYN
+	// either): boundaries of every digit count and random ones
+	for _, t := range []int{0x7A, 0x3C, 0x6E} {
+		for _, n := range []int{4, 8} {
+			if (t == 0x7A && n == 8) || (t == 0x3C && n == 4) {
+				continue
+			}
+			var vals []int64
+			for k, pw := 0, int64(1); k <= 18; k, pw = k+1, pw*10 {
+				vals = append(vals, pw, pw-1, -pw, -(pw - 1))
+			}
+			vals = append(vals, 0, 1<<31-1, -(1 << 31), 1<<63-1, -(1 << 63))
+			for i := 0; i < 40; i++ {
+				vals = append(vals, rng.Int63()>>uint(rng.Intn(63))*int64(1-2*rng.Intn(2)))
+			}
+			for _, v := range vals {
+				if n == 4 {
+					if v > 1<<31-1 || v < -(1<<31) {
+						continue
+					}
+					emit(Case{Line: fmt.Sprintf("dec wire %d %s", t, hx(le32(int(uint32(int32(v)))))), Kind: "wire-money"})
+				} else {
+					u := uint64(v)
+					emit(Case{Line: fmt.Sprintf("dec wire %d %s", t, hx(append(le32(int(uint32(u>>32))), le32(int(uint32(u)))...))), Kind: "wire-money"})
+				}
+			}
+		}
+	}
 	// 1. sanity: p, s in -3..42 (+ a few far values)
 	for p := -3; p <= 42; p++ {
 		for s := -3; s <= 42; s++ {
@@ -517,10 +585,11 @@ func decGen(tier string, rng *rand.Rand, emit func(Case)) {
 
 func init() {
 	register(&Prop{
-		ID:     "C16",
-		Gen:    decGen,
-		Impl:   decImpl,
-		Oracle: decOracle,
+		ID:      "C16",
+		Gen:     decGen,
+		Impl:    decImpl,
+		NoModel: func(line string) bool { return strings.HasPrefix(line, "dec wire ") },
+		Oracle:  decOracle,
 		FindingKey: func(line, out, clause string) string {
 			f := strings.Fields(line)
 			if len(f) >= 2 {
